@@ -183,3 +183,41 @@ def pattern_value_after_load(H, case):
     H.check("max_maps_to_0x8000", H.call(c2.pattern_value, q, t.max) == 0x8000)
     H.check("monotone", H.implies(v <= w, H.call(c2.pattern_value, q, v) <= H.call(c2.pattern_value, q, w)))
     H.cover("reached")
+
+
+@contract(
+    "user_defined_raw_codec", ["C10", "C15"],
+    targets=["rv.modules.module:Module.get_raw", "rv.modules.module:Module.set_raw", "rv.modules.metamodule:UserDefinedProxy.instance_value_type",
+             "rv.modules.metamodule:UserDefinedProxy.controller", "rv.controller:Controller.pattern_value"],
+    cases=lambda tier: [(k, i) for i, k in enumerate(["negative_min_range", "bool", "enum", "plain_range", "unset"])],
+)
+def user_defined_raw_codec(H, i):
+    """The MetaModule's user-defined controllers take the value type of the embedded controller they
+    are mapped to (negative-minimum range, bool, enum, plain range, or their own 0..44100 when unset):
+    get_raw gives the documented stored value for that type for every in-domain value, set_raw
+    restores it, and a ranged one maps min -> 0x0000 and max -> 0x8000 in the pattern encoding."""
+    from rv.modules.metamodule import MetaModule
+
+    from .c15 import build_metamodule
+
+    m = build_metamodule(H, 5)
+    name = f"user_defined_{i + 1}"
+    t = m.user_defined[i].value_type
+    v = m.controller_values[name]
+    raw = H.call(m.get_raw, name)
+    if isinstance(t, Range):
+        H.check("stored_value", raw == (v - t.min if t.min < 0 else v))
+        H.check("stored_nonnegative", raw >= 0)
+        ctl = type(m).controllers[name]
+        H.check("pattern_value_of_min_is_0x0000", H.call(ctl.pattern_value, m, t.min) == 0)
+        H.check("pattern_value_of_max_is_0x8000", H.call(ctl.pattern_value, m, t.max) == 0x8000)
+    elif t is bool:
+        H.check("stored_value", raw == H.ite(v, 1, 0))
+    else:
+        H.check("stored_value", raw == v.value)
+    before = dict(m.controller_values)
+    H.call(m.set_raw, name, raw)
+    H.check("set_raw_restores", H.eq(m.controller_values[name], v))
+    H.check("set_raw_touches_nothing_else", H.eq({k: x for k, x in m.controller_values.items() if k != name},
+                                                 {k: x for k, x in before.items() if k != name}))
+    H.cover("reached")
